@@ -111,6 +111,10 @@ func ErrSites(fn *ssa.Function) []ErrSite {
 			}
 			if onlyCompared(errVal, map[ssa.Value]bool{}) {
 				add(call, "swallowed")
+				continue
+			}
+			if overwrittenInLoop(errVal) {
+				add(call, "overwritten")
 			}
 		}
 	}
@@ -183,6 +187,9 @@ func ioInterfaceMethod(m *types.Func) bool {
 	}
 	switch m.Name() {
 	case "Read", "Write", "ReadAt", "WriteAt", "Seek", "Close", "ReadFrom", "WriteTo", "WriteString", "Flush", "Sync":
+		return true
+	// the library's own reader/writer interfaces sit on top of the medium
+	case "ReadRows", "ReadPage", "ReadValues", "ReadValuesAt", "WriteRows", "WritePage", "WriteValues", "WriteRowGroup", "SeekToRow", "ReadRowsFrom", "WriteRowsTo", "CopyRows":
 		return true
 	}
 	return false
@@ -290,12 +297,13 @@ type errException struct {
 
 func matchErrException(tbl []errException, s ErrSite) *errException {
 	fk := FuncKey(s.Fn)
+	bk := baseFuncKey(s.Fn)
 	for i := range tbl {
 		x := &tbl[i]
 		if x.Kind != "*" && x.Kind != s.Kind {
 			continue
 		}
-		if x.Fn != "*" && x.Fn != fk && !(strings.HasSuffix(x.Fn, "*") && strings.HasPrefix(fk, strings.TrimSuffix(x.Fn, "*"))) {
+		if x.Fn != "*" && x.Fn != fk && x.Fn != bk && !(strings.HasSuffix(x.Fn, "*") && strings.HasPrefix(fk, strings.TrimSuffix(x.Fn, "*"))) {
 			continue
 		}
 		if x.Callee != "*" && x.Callee != s.Callee && !(strings.HasSuffix(x.Callee, "*") && strings.HasPrefix(s.Callee, strings.TrimSuffix(x.Callee, "*"))) {
@@ -351,4 +359,72 @@ func runErrRule(c *Ctx, rule string, inScope func(*ssa.Function) bool, isSource 
 		c.Note("%s: exception entries matching nothing on this tree: %s", rule, strings.Join(unused, "; "))
 	}
 	return
+}
+
+// overwrittenInLoop: the error value flows only into phis (it is assigned to
+// a variable and not looked at), and from the merge point control can come
+// round to the same merge point again without any instruction reading the
+// variable: on that path the error is overwritten before it was checked.
+func overwrittenInLoop(v ssa.Value) bool {
+	uses := realReferrers(v)
+	if len(uses) == 0 {
+		return false
+	}
+	var phis []*ssa.Phi
+	for _, u := range uses {
+		p, ok := u.(*ssa.Phi)
+		if !ok {
+			return false
+		}
+		phis = append(phis, p)
+	}
+	for _, p := range phis {
+		// tracked names: p and every phi it feeds
+		tracked := map[ssa.Value]bool{p: true}
+		for changed := true; changed; {
+			changed = false
+			for t := range tracked {
+				for _, r := range realReferrers(t) {
+					if q, ok := r.(*ssa.Phi); ok && !tracked[q] {
+						tracked[q] = true
+						changed = true
+					}
+				}
+			}
+		}
+		useBlocks := map[*ssa.BasicBlock]bool{}
+		for t := range tracked {
+			for _, r := range realReferrers(t) {
+				if _, ok := r.(*ssa.Phi); ok {
+					continue
+				}
+				useBlocks[r.Block()] = true
+			}
+		}
+		start := p.Block()
+		if useBlocks[start] {
+			continue
+		}
+		seen := map[*ssa.BasicBlock]bool{}
+		var cyc bool
+		var walk func(b *ssa.BasicBlock)
+		walk = func(b *ssa.BasicBlock) {
+			for _, s := range b.Succs {
+				if s == start {
+					cyc = true
+					return
+				}
+				if seen[s] || useBlocks[s] {
+					continue
+				}
+				seen[s] = true
+				walk(s)
+			}
+		}
+		walk(start)
+		if cyc {
+			return true
+		}
+	}
+	return false
 }
